@@ -1,5 +1,6 @@
 import Props.SchedTie
 import TaskModel.Sched.DeferLemmas
+import TaskModel.Sched.MonVal
 /-!
 # C14 — Deferred commands always run, exactly once, in reverse order
 
@@ -427,5 +428,43 @@ example : ((replay prog {} (init 1) run1).bind (fun c => c.act? 1)).map (fun x =
     = some ([2, 0], [0, 2], .run (.exit 3), .done) := by decide
 -- running the deferred entries in registration order is rejected
 example : (replay prog {} (init 1) (run1.take 10 ++ [⟨1, .cmdStart 0 (some 3) true⟩])).isNone = true := by decide
+
+/-! ## deferred `task:` entries see the exit code too
+
+What a reference hands to its callee is not part of the acceptor; `Sched.MonVal` computes it alongside
+the acceptor's own `step` (`valsOf`) and the driver compares it with what the callee's commands printed
+(verdict `C02v`).  For a deferred `task:` entry written `vars: {V: '{{.EXIT_CODE}}'}` the expected value
+is read off the deferring activation at the moment the deferred call enters. -/
+
+/-- **C14 (EXIT_CODE reaches a deferred task call).** The value a deferred `task:` entry passing
+`{{.EXIT_CODE}}` hands to its callee is the exit status recorded when the body failed — the same
+`Act.exitCode` a deferred shell entry is rendered with (`C14_exit_code`, `C14_exit_code_recorded`) — and
+the empty string if the body did not fail with an exit status. -/
+theorem C14_deferred_call_sees_exit_code (Ps : Passes) (c : Config) (vals : List (Nat × Nat)) (p i : Nat) (px : Act)
+    (hp : c.act? p = some px) (hpass : cmdPass Ps px.task i = .exitCode) :
+    expectedVal Ps c vals (.call p i true) = (if px.exitCode > 0 then valNum px.exitCode else valEmpty) := by
+  simp [expectedVal, hp, hpass, passVal]
+
+/-- … whatever the deferring activation was called with itself, and a variable of the deferring task
+arrives as that task's -/
+theorem C14_deferred_call_sees_local (Ps : Passes) (c : Config) (vals : List (Nat × Nat)) (p i : Nat) (px : Act)
+    (hp : c.act? p = some px) (hpass : cmdPass Ps px.task i = .local_) :
+    expectedVal Ps c vals (.call p i true) = valLocal px.task := by
+  simp [expectedVal, hp, hpass, passVal]
+
+/-- non-vacuity: task 0 fails with status 3; its deferred call of task 1 passes `{{.EXIT_CODE}}`; the callee's
+command must have printed `3` (`valNum 3`), and a log in which it printed nothing fails the monitor -/
+private def progD : Program :=
+  [{ cmds := [.call 1 true, .shell 3 false false] }, { cmds := [.shell 0 false false] }]
+private def passD : Passes := [{ cmds := [.exitCode, .none] }, { cmds := [.none] }]
+private def runD : List Label :=
+  [⟨1, .enter (.top 0) 0⟩, ⟨1, .acquire⟩, ⟨1, .depsRelease⟩, ⟨1, .depsReacq⟩, ⟨1, .depsDone .ok⟩, ⟨1, .guardsPassed⟩,
+   ⟨1, .cmdStart 1 none false⟩, ⟨1, .cmdEnd 1 (.exit 3)⟩, ⟨1, .callRelease 0 true⟩,
+   ⟨2, .enter (.call 1 0 true) 1⟩, ⟨2, .acquire⟩, ⟨2, .depsRelease⟩, ⟨2, .depsReacq⟩, ⟨2, .depsDone .ok⟩, ⟨2, .guardsPassed⟩,
+   ⟨2, .cmdStart 0 none false⟩, ⟨2, .cmdEnd 0 .ok⟩, ⟨2, .release⟩, ⟨2, .exit⟩,
+   ⟨1, .callRet 0⟩, ⟨1, .callReacq 0⟩, ⟨1, .release⟩, ⟨1, .exit⟩]
+example : (replay progD {} (init 1) runD).isSome = true := by decide
+example : valMon passD progD {} 1 runD [(2, valNum 3), (1, 0)] = true := by decide
+example : valMon passD progD {} 1 runD [(2, 0)] = false := by decide
 
 end Props.C14
